@@ -282,6 +282,29 @@ def check(prop, tier, seed):
         exit_code = exit_code or 3
 
     wall = time.time() - t0
+    level = getattr(P, "LEVEL", "proof")
+    if level == "exploration":
+        # a property decided by bounded stand-ins only: reported as what it is (exhaustive small-scope exploration)
+        ev_cases = sum(int(b.get("cases") or 0) for b in bounded)
+        ev_nontriv = sum(int(b.get("nontrivial") if b.get("nontrivial") is not None else (b.get("cases") or 0)) for b in bounded)
+        lines[:] = [ln for ln in lines if "zero obligations" not in ln]
+        if exit_code == 3 and n_obl == 0 and not errors and not vacuity:
+            exit_code = 1 if violations else 0
+        ev = {"property_id": prop, "tier": tier, "seed": seed, "level": "exploration",
+              "coverage": {"evaluations": ev_cases, "distinct_nontrivial": ev_nontriv,
+                           "rule": getattr(P, "RULE", "cases are enumerated exhaustively up to the stated bound, each case is distinct by construction"),
+                           "samples": [x for b in bounded for x in (b.get("samples") or [])] or [b.get("bound") for b in bounded],
+                           "exhaustive": True, "bounded": bounded, "obligations": n_obl, "discharged": n_dis,
+                           "not_covered": list(getattr(P, "NOT_COVERED", [])), "repo": REPO,
+                           "verdict": {0: "held", 1: "violation", 2: "undecided", 3: "checker-error"}[exit_code]},
+              "assumptions": list(getattr(P, "ASSUMPTIONS", [])), "wall_s": round(wall, 3), "violations": violations}
+        with open(os.path.join(evdir, f"{prop}.json"), "w") as fh:
+            json.dump(ev, fh, indent=1, default=str)
+        for ln in lines:
+            print(ln)
+        print(f"{prop} [{tier}] {ev['coverage']['verdict']}: bounded stand-ins only: {ev_cases} cases ({ev_nontriv} non-trivial), "
+              f"{violations} failing, {n_dis}/{n_obl} deductive obligations, in {wall:.1f}s")
+        return exit_code
     evidence = {
         "property_id": prop,
         "tier": tier,
